@@ -4,8 +4,12 @@ use syn::{Error, FnArg, Pat};
 
 use super::{
     types::{ArgInfo, MethodAttrs},
-    utils::{convert_to_single_lifetime, snake_case_to_pascal_case, type_contains_lifetime},
+    utils::{
+        convert_to_single_lifetime, extract_param_rename_attr, param_field_attrs,
+        snake_case_to_pascal_case, type_contains_lifetime,
+    },
 };
+use crate::utils::is_option_type;
 
 pub(super) fn generate_chain_method(
     method: &mut syn::TraitItemFn,
@@ -90,6 +94,7 @@ pub(super) fn generate_chain_method(
         &method_where_clause,
         has_any_lifetime,
         has_explicit_lifetimes,
+        method_attrs.is_streaming,
         crate_path,
     );
 
@@ -141,12 +146,18 @@ fn parse_method_arguments<'a>(
             // Check if this argument has lifetimes
             let has_lifetime = type_contains_lifetime(&ty_for_params);
 
+            // Same wire name and `None` handling as the plain method.
+            let serialized_name = extract_param_rename_attr(&mut pat_type.attrs.clone())
+                .ok()
+                .flatten();
+            let is_optional = is_option_type(ty);
+
             Some(Ok(ArgInfo {
                 name,
                 ty_for_params,
                 has_lifetime,
-                is_optional: false,
-                serialized_name: None,
+                is_optional,
+                serialized_name,
             }))
         })
         .collect()
@@ -184,15 +195,24 @@ fn generate_method_call_creation(
     method_where_clause: &Option<syn::WhereClause>,
     has_any_lifetime: bool,
     has_explicit_lifetimes: bool,
+    is_streaming: bool,
     crate_path: &TokenStream,
 ) -> TokenStream {
+    // A streaming method asks for more replies, in a chain as much as on its own.
+    let set_more = if is_streaming {
+        quote! { .set_more(true) }
+    } else {
+        quote! {}
+    };
+
     if !arg_names.is_empty() {
         let param_fields: Vec<_> = arg_infos
             .iter()
             .map(|info| {
                 let name = info.name;
                 let ty = &info.ty_for_params;
-                quote! { pub #name: #ty }
+                let attrs = param_field_attrs(&info.serialized_name, info.is_optional);
+                quote! { #attrs pub #name: #ty }
             })
             .collect();
 
@@ -249,7 +269,7 @@ fn generate_method_call_creation(
             let method_call = #wrapper_enum_name::Method(#params_struct_name {
                 #(#arg_names,)*
             });
-            let call = #crate_path::Call::new(method_call);
+            let call = #crate_path::Call::new(method_call) #set_more;
         }
     } else {
         // Create unique enum name for this method to avoid conflicts
@@ -270,7 +290,7 @@ fn generate_method_call_creation(
             }
 
             let method_call = #wrapper_enum_name::Method;
-            let call = #crate_path::Call::new(method_call);
+            let call = #crate_path::Call::new(method_call) #set_more;
         }
     }
 }
